@@ -38,15 +38,30 @@ impl Wut {
         let mut buf = vec![0u8; 2048];
         if api == "flow" {
             let mut f = Flow::new(req).unwrap().proceed();
-            f.write(&mut buf).unwrap();
+            for _ in 0..400 {
+                if f.can_proceed() {
+                    break;
+                }
+                f.write(&mut buf).unwrap();
+            }
+            // a further write in the send-request state is permitted and must not touch the body
+            let _ = f.write(&mut buf[..64]);
             match f.proceed().unwrap().unwrap() {
                 SendRequestResult::SendBody(f) => Wut::Flow(f),
                 _ => panic!("harness: expected SendBody"),
             }
         } else {
             let mut c = Call::with_body(req).unwrap();
-            let (i, _) = c.write(&[], &mut buf).unwrap();
-            assert_eq!(i, 0);
+            // the head ends with an empty line; stop there (a further empty write would end the body)
+            let mut acc: Vec<u8> = vec![];
+            for _ in 0..400 {
+                let (i, n) = c.write(&[], &mut buf).unwrap();
+                assert_eq!(i, 0);
+                acc.extend(&buf[..n]);
+                if acc.ends_with(b"\r\n\r\n") {
+                    break;
+                }
+            }
             Wut::Call(c)
         }
     }
